@@ -4,6 +4,7 @@ package rules
 import (
 	"go/ast"
 	"go/types"
+	"strings"
 
 	"npverif/internal/core"
 	"npverif/internal/facts"
@@ -165,6 +166,131 @@ func IsErrorReturn(p *core.Program, w *facts.Walker, fn *types.Func, ret *ast.Re
 		}
 	}
 	return false
+}
+
+// Unfold renders an expression with every local that has exactly ONE definition in scope (a function body or function
+// literal and its enclosing function) replaced by that definition, recursively: with `anps := pe.sorted` and
+// `a, b := anps[i], anps[j]`, the expression `a.Spec.Priority` unfolds to `pe.sorted[i].Spec.Priority`. Rules that
+// look for the origin of a value use it so that introducing (or removing) a local for a repeated expression does not
+// change what they see. Parameters and multiply-assigned variables stay as they are.
+func Unfold(info *types.Info, scope ast.Node, e ast.Expr) string {
+	defs := map[types.Object][]ast.Expr{}
+	ast.Inspect(scope, func(n ast.Node) bool {
+		switch x := n.(type) {
+		case *ast.AssignStmt:
+			for i, l := range x.Lhs {
+				id, ok := l.(*ast.Ident)
+				if !ok || id.Name == "_" {
+					continue
+				}
+				o := info.ObjectOf(id)
+				if o == nil {
+					continue
+				}
+				switch {
+				case len(x.Rhs) == len(x.Lhs):
+					defs[o] = append(defs[o], x.Rhs[i])
+				default:
+					defs[o] = append(defs[o], nil) // tuple result: not unfolded
+				}
+			}
+		case *ast.RangeStmt:
+			for _, l := range []ast.Expr{x.Key, x.Value} {
+				if id, ok := l.(*ast.Ident); ok {
+					if o := info.ObjectOf(id); o != nil {
+						defs[o] = append(defs[o], nil)
+					}
+				}
+			}
+		case *ast.IncDecStmt:
+			if id, ok := x.X.(*ast.Ident); ok {
+				if o := info.ObjectOf(id); o != nil {
+					defs[o] = append(defs[o], nil)
+				}
+			}
+		}
+		return true
+	})
+	var rec func(e ast.Expr, depth int) string
+	rec = func(e ast.Expr, depth int) string {
+		switch x := e.(type) {
+		case nil:
+			return ""
+		case *ast.ParenExpr:
+			return "(" + rec(x.X, depth) + ")"
+		case *ast.Ident:
+			if o := info.ObjectOf(x); o != nil && depth < 4 {
+				if ds := defs[o]; len(ds) == 1 && ds[0] != nil {
+					d := ast.Unparen(ds[0])
+					switch d.(type) {
+					case *ast.Ident, *ast.SelectorExpr, *ast.IndexExpr, *ast.CallExpr, *ast.BasicLit, *ast.StarExpr, *ast.TypeAssertExpr:
+						return rec(d, depth+1)
+					default:
+						return "(" + rec(d, depth+1) + ")"
+					}
+				}
+			}
+			return x.Name
+		case *ast.SelectorExpr:
+			return rec(x.X, depth) + "." + x.Sel.Name
+		case *ast.IndexExpr:
+			return rec(x.X, depth) + "[" + rec(x.Index, depth) + "]"
+		case *ast.StarExpr:
+			return "*" + rec(x.X, depth)
+		case *ast.UnaryExpr:
+			return x.Op.String() + rec(x.X, depth)
+		case *ast.BinaryExpr:
+			return rec(x.X, depth) + " " + x.Op.String() + " " + rec(x.Y, depth)
+		case *ast.CallExpr:
+			var as []string
+			for _, a := range x.Args {
+				as = append(as, rec(a, depth))
+			}
+			return rec(x.Fun, depth) + "(" + strings.Join(as, ", ") + ")"
+		case *ast.TypeAssertExpr:
+			return rec(x.X, depth) + ".(" + core.ExprStr(x.Type) + ")"
+		}
+		return core.ExprStr(e)
+	}
+	return rec(e, 0)
+}
+
+// FieldBehind resolves e to a struct field: directly (x.f), or through a local alias with a single definition
+// (`a := x.f` ... a). A slice alias shares its backing array, so an in-place operation on the alias is an operation
+// on the field.
+func FieldBehind(fd *core.FuncDecl, e ast.Expr) *types.Var {
+	info := fd.Pkg.TypesInfo
+	for depth := 0; depth < 3; depth++ {
+		if f := core.FieldOf(info, e); f != nil {
+			return f
+		}
+		id, ok := ast.Unparen(e).(*ast.Ident)
+		if !ok {
+			return nil
+		}
+		d, _ := defOf(fd, id)
+		if d == nil {
+			return nil
+		}
+		// single definition only
+		n := 0
+		o := info.ObjectOf(id)
+		ast.Inspect(fd.Decl.Body, func(nd ast.Node) bool {
+			if as, isAs := nd.(*ast.AssignStmt); isAs {
+				for _, l := range as.Lhs {
+					if lid, isID := l.(*ast.Ident); isID && info.ObjectOf(lid) == o {
+						n++
+					}
+				}
+			}
+			return true
+		})
+		if n != 1 {
+			return nil
+		}
+		e = d
+	}
+	return nil
 }
 
 // LastReturn: the return statement that ends a block (statements before it are allowed), or nil.
